@@ -12,6 +12,7 @@
   run only.
 -/
 import PLV.Lemmas.TextRecords
+import PLV.Props.Ranges
 
 namespace PLV.C16
 open PLV PLV.Text
@@ -29,20 +30,6 @@ macro "plain_tac" : tactic =>
 
 macro "plain_fields" : tactic =>
   `(tactic| ((repeat' (first | exact plain_nil | apply plain_cons)) <;> plain_tac))
-
-/-- numeric fields of an order fit their Rust types -/
-structure OrderOk (o : Order) : Prop where
-  id : o.id.val < 2 ^ 128
-  price : o.price < W
-  vis : o.vis < W
-  ts : o.ts < W
-  tif : ∀ n, o.tif = .gtd n → n < W
-  kind : match o.kind with
-    | .trailingStop t r => t < W ∧ r < W
-    | .pegged off _ => -9223372036854775808 ≤ off ∧ off < 9223372036854775808
-    | .iceberg h => h < W
-    | .reserve h thr amt _ => h < W ∧ thr < W ∧ (∀ a, amt = some a → a < W)
-    | _ => True
 
 theorem C16_id (i : Id) (h : i.val < 2 ^ 128) : parseId (showId i) = some i := parseId_showId i h
 theorem C16_uuid (v : Nat) (h : v < 2 ^ 128) : parseUuid (showUuid v) = some v := parseUuid_showUuid h
@@ -347,14 +334,6 @@ theorem rt_Replace (id : Id) (p n : Nat) (sd : Side)
   simp only [parseFields_renderPairs _ (by simp) hfs]
   simp (config := {decide := true}) [getField, reqU64, List.find?, e1, e2, e3, parseSide_showSide, bind, Except.bind]
 
-/-- numeric fields of an update fit their Rust types -/
-def UpdateOk : Update → Prop
-  | .price id p => id.val < 2 ^ 128 ∧ p < W
-  | .quantity id n => id.val < 2 ^ 128 ∧ n < W
-  | .priceQty id p n => id.val < 2 ^ 128 ∧ p < W ∧ n < W
-  | .cancel id => id.val < 2 ^ 128
-  | .replace id p n _ => id.val < 2 ^ 128 ∧ p < W ∧ n < W
-
 /-- **order updates, all five kinds** -/
 theorem C16_update (u : Update) (h : UpdateOk u) : parseUpdate (showUpdate u) = .ok u := by
   cases u with
@@ -365,14 +344,6 @@ theorem C16_update (u : Update) (h : UpdateOk u) : parseUpdate (showUpdate u) = 
   | replace id p n sd => exact rt_Replace id p n sd h.1 h.2.1 h.2.2
 
 /-! ### transactions, statistics, snapshot summaries -/
-
-structure TxOk (t : TxRec) : Prop where
-  txid : t.txid < 2 ^ 128
-  taker : t.taker.val < 2 ^ 128
-  maker : t.maker.val < 2 ^ 128
-  price : t.price < W
-  qty : t.qty < W
-  ts : t.ts < W
 
 theorem rt_Tx (txid : Nat) (taker maker : Id) (price qty : Nat) (side : Side) (ts : Nat)
     (h0 : txid < 2 ^ 128) (h1 : taker.val < 2 ^ 128) (h2 : maker.val < 2 ^ 128) (h3 : price < W) (h4 : qty < W) (h5 : ts < W) :
